@@ -105,7 +105,9 @@ def check(prog: Program, tier: str) -> Result:
     _r11_2(prog, res)
     res.floors["R11.2"] = 1
     _r11_3(prog, res)
+    _r11_4(prog, res)
     res.floors["R11.3"] = 1
+    res.floors["R11.4"] = 2
     res.analysed.update({"transformation_calls": n_calls, "functions_reachable_from_format_code": len(reach)})
     return res
 
@@ -498,10 +500,51 @@ def _literal_aware(prog: Program, res: Result, tf: TextFlow, reach) -> None:
                    "line wrapping no longer applies black to statement ranges only")
 
 
+def _r11_4(prog: Program, res: Result) -> None:
+    """formatting.indentation_level(text) is the MINIMUM indentation over all lines of the text - including the lines of a
+    multi-line string literal and oddly continued brackets.  It is the right number for one purpose: to take a block apart with
+    textwrap.dedent and put it back with textwrap.indent (an inverse pair: every line moves by the same amount).  Written in
+    front of a statement as `' ' * level` it re-indents the statement to the column of its least indented line: a method whose
+    docstring has a line in column 0 moves to module level (`def usage` left its class), a `return` leaves its function.
+    Instance: every use of a value bound from indentation_level(..) as a repetition count of blanks; obligation: it is the
+    prefix argument of textwrap.indent in a function that dedents the same text."""
+    from ..defuse import bindings
+    n = 0
+    for fn in prog.funcs.values():
+        levels = set()
+        for nm, defs in bindings(fn).items():
+            for _s, v in defs:
+                if isinstance(v, ast.Call) and (prog.dotted(v.func) or "").split(".")[-1] == "indentation_level":
+                    levels.add(nm)
+        if not levels:
+            continue
+        dedents = any(isinstance(c, ast.Call) and (prog.dotted(c.func) or "") == "textwrap.dedent" for c in walk_own(fn.node))
+        for x in walk_own(fn.node):
+            if isinstance(x, ast.BinOp) and isinstance(x.op, ast.Mult):
+                sides = (x.left, x.right)
+                cnt = next((s_ for s_ in sides if isinstance(s_, ast.Name) and s_.id in levels), None)
+                blank = next((s_ for s_ in sides if isinstance(s_, ast.Constant) and isinstance(s_.value, str) and s_.value.strip(" \t") == "" and s_.value), None)
+                if cnt is None or blank is None:
+                    continue
+                n += 1
+                p_ = parent(x)
+                in_indent = isinstance(p_, ast.Call) and (prog.dotted(p_.func) or "") == "textwrap.indent" and len(p_.args) >= 2 and p_.args[1] is x
+                ok = in_indent and dedents
+                res.decide(ok, "R11.4", fn.loc(x), fn.fq, short(p_ if isinstance(p_, ast.Call) else x, 70),
+                           "the prefix of textwrap.indent after textwrap.dedent: an inverse pair, every line moves by the same amount" if ok else
+                           f"`{norm(x)}` is written in front of a statement, but `{cnt.id}` is the minimum indentation over ALL its lines (string content and continuation lines "
+                           "included): the statement is re-indented to the column of its least indented line and can leave its block")
+    if n == 0:
+        raise AnalysisError("R11.4: no use of indentation_level as a count of blanks found")
+
+
 # ---------------------------------------------------------------------------------------------- self-test
 from ..selftest import Variant  # noqa: E402
 
 VARIANTS = [
+    Variant("statement-reindented-to-its-least-indented-line", "FIRE", "fixes",
+            "        indentation = whitespace_between.rpartition(\"\\n\")[2]\n        spacing = \"\\n\" * correct_newline_count + indentation\n",
+            "        level = formatting.indentation_level(whitespace_between + source[i2_start:i2_end])\n        spacing = \"\\n\" * correct_newline_count + \" \" * level\n", "R11.4"),
     Variant("re-prefixed-spelling-stored-unchecked", "FIRE", "processing",
             "            if not (\n                core.is_valid_python(most_common_original_formatting)\n                and core.match_template(core.parse(most_common_original_formatting), template)\n            ):\n                continue\n", "", "R11.3"),
     Variant("literal-recogniser-back-to-the-ast-form", "FIRE", "processing",
